@@ -121,7 +121,7 @@ func run(o hx.RunOpts) error {
 			return err
 		}
 	}
-	n := o.N(150, 2500)
+	n := o.N(150, 1500)
 	for i := 0; i < n; i++ {
 		sc, sched := occ4.Gen(p.Fork(), o.Thorough(), true)
 		if err := runCase(ctx, s, tcase{"history", sc, sched, false}); err != nil {
